@@ -245,7 +245,9 @@ pub fn nesting_case(r: &mut Rng) -> String {
 /// Deep call nesting (beyond 8-bit / initial-capacity thresholds of the mode stack) around a
 /// small speculative / string / error case.
 pub fn deep_call_case(r: &mut Rng) -> String {
-    let k = r.pick(&[6usize, 13, 20, 21, 41, 52, 60, 100, 300]);
+    // 300 levels only rarely: the debug build's loop detector clones the mode stack on every
+    // iteration, which makes very deep inputs expensive there
+    let k = if r.chance(1, 40) { 300 } else { r.pick(&[6usize, 13, 20, 21, 41, 52, 60, 100]) };
     let open = r.pick(&["%a(", "%a(x,", "%a(b=", "%eval((", "%str((", "%eval(", "%sysevalf(", "%scan(a,", "%sysfunc(f(", "%substr(a,", "%upcase(", "\"%a("]);
     let prefix = r.pick(&["", "", "%if ", "%do i=1 %to ", "x = ", "%let a=", "%put "]);
     let inner = match r.below(7) {
@@ -392,6 +394,12 @@ pub fn structural_targeted(prop: &str, r: &mut Rng, corpus: &Corpus, tier: Tier)
             _ => str_call_case(r),
         },
         "C09" => match r.below(12) {
+            3 | 4 => {
+                // line feeds inside speculative regions (comments, trivia before '(' / '=')
+                let b = if r.chance(1, 2) { speculation_case(r) } else { error_case(r, corpus) };
+                let b = if r.chance(1, 3) { format!("\"{b}") } else { b };
+                lf_variant(&b, r)
+            }
             0 => deep_call_case(r),
             1 | 2 => {
                 // label / separator neighbourhoods with errors nearby (insert_token index shifting)
